@@ -54,6 +54,8 @@ var c12Reqs = []c12Req{
 	{"d-struct-a", `{ plainA { name n tag } }`, nil, nil, "valid", nil},
 	{"d-struct-b", `{ plainB { name n tag } }`, nil, nil, "valid", nil},
 	{"d-ptr-map", `{ plainPtr { name n tag } plainMap { name n tag } plainTagged { name n tag } }`, nil, nil, "valid", nil},
+	{"sub-two-roots", `subscription { a: events { id } b: ticks { s } }`, nil, nil, "subscription", nil},
+	{"sub-one-root", `subscription { events { id name } }`, nil, nil, "subscription", nil},
 	{"s-types", `{ __schema { types { name kind } } }`, nil, nil, "introspection", nil},
 	{"s-iface", `{ __type(name:"Node") { fields { name args { name type { name } } } possibleTypes { name } } }`, nil, nil, "introspection", nil},
 	{"s-enum", `{ __type(name:"Kind") { enumValues { name } } }`, nil, nil, "introspection", nil},
@@ -184,6 +186,25 @@ func c12Exec(w *World, rq c12Req, cache *graphql.PlanCache, plans map[string]*gr
 	c12ExtRun.mu.Unlock()
 	rc := &ReqCtx{Task: "c1", W: w, Faults: rq.Faults, RootTok: Tok{T: c12Root(rq.Query)}}
 	ctx := WithReq(context.Background(), rc)
+	if rq.Kind == "subscription" {
+		// a source that delivers one event and closes; the results are collected
+		w.SubSource = func(p graphql.ResolveParams) (interface{}, error) {
+			// each subscription field has its own stream
+			c := make(chan interface{}, 1)
+			if p.Info.FieldName == "events" {
+				c <- Ev{N: 0}
+			} else {
+				c <- Ev{N: 100}
+			}
+			close(c)
+			return c, nil
+		}
+		var all []string
+		for r := range graphql.Subscribe(graphql.Params{Schema: w.Schema, RequestString: rq.Query, VariableValues: rq.Vars, Context: ctx}) {
+			all = append(all, MarshalResult(r))
+		}
+		return "[" + strings.Join(all, ",") + "]"
+	}
 	if rq.ExtPlan != nil {
 		// the parse and validation phases of extensions exist only on the Do
 		// path; ExecutePlan legitimately skips them
